@@ -324,7 +324,16 @@ func (g *mixGen) genBlock(h uint64) []pb.Transaction {
 				g.note("group-child-receipt")
 			}
 		case x < 84: // governance
-			txs = append(txs, g.govTx())
+			tx := g.govTx()
+			if bt, ok := tx.(*pb.BxhTransaction); ok && r.Intn(8) == 0 {
+				// the timestamp is optional on the wire: a record dated by it must be dated the same by every replica
+				if k := keyOf(bt.From); k != nil {
+					bt.Timestamp = 0
+					harness.Finish(bt, k, bt.Extra)
+					g.note("gov-tx-without-timestamp")
+				}
+			}
+			txs = append(txs, tx)
 		case x < 88: // XVM
 			k := harness.User(r.Intn(4))
 			if r.Intn(3) == 0 {
